@@ -587,6 +587,9 @@ def policies_to_json(pol):
     return out
 
 
+_CURRENT = [None]
+
+
 class ImplEngine(object):
     def __init__(self, scripted_crypto=True, workdir=None):
         quiet()
@@ -617,17 +620,22 @@ class ImplEngine(object):
             return orig(operation, payload)
         self.engine._process_operation = counted
         # capture internal errors (exception class + innermost repo frame)
+        # (the logger is shared by all engines of the process: wrap it once, record into the engine now open)
         lg = self.engine._logger
-        orig_exc = lg.exception
+        _CURRENT[0] = self
+        if not getattr(lg, "_verif_wrapped", False):
+            orig_exc = lg.exception
 
-        def exc(e, *a, **k):
-            import traceback
-            tb = traceback.extract_tb(e.__traceback__) if isinstance(e, BaseException) else []
-            fr = [f for f in tb if "/kmip/" in f.filename]
-            site = "%s:%s" % (os.path.basename(fr[-1].filename), fr[-1].name) if fr else "?"
-            me.internal_errors.append({"exc": type(e).__name__, "site": site, "msg": str(e)[:200]})
-            return orig_exc(e, *a, **k)
-        lg.exception = exc
+            def exc(e, *a, **k):
+                import traceback
+                tb = traceback.extract_tb(e.__traceback__) if isinstance(e, BaseException) else []
+                fr = [f for f in tb if "/kmip/" in f.filename]
+                site = "%s:%s" % (os.path.basename(fr[-1].filename), fr[-1].name) if fr else "?"
+                if _CURRENT[0] is not None:
+                    _CURRENT[0].internal_errors.append({"exc": type(e).__name__, "site": site, "msg": str(e)[:200]})
+                return orig_exc(e, *a, **k)
+            lg.exception = exc
+            lg._verif_wrapped = True
 
     def close(self):
         try:
@@ -663,6 +671,7 @@ class ImplEngine(object):
 
     # -- protocol -----------------------------------------------------------
     def request(self, now, ident, req):
+        _CURRENT[0] = self
         self.clock.now = now
         self._scripts = [it.get("crypto") for it in req["items"]]
         self._recorded = [None] * len(req["items"])
